@@ -138,11 +138,30 @@ func (g *PG) intExpr(d int) string {
 	return fmt.Sprint(r.Intn(9))
 }
 
+// strExpr: literals from a small pool (so that equal strings meet), variables, concatenations
+func (g *PG) strExpr(d int) string {
+	r := g.r
+	pool := []string{"\"\"", "\"a\"", "\"ab\"", "\"b\"", "\"go\"", "\"m\""}
+	sv := g.vars("string")
+	switch {
+	case d > 0 && r.Intn(4) == 0:
+		g.f("string-concat")
+		return g.strExpr(d-1) + " + " + g.strExpr(d-1)
+	case len(sv) > 0 && r.Bool():
+		return Pick(r, sv)
+	}
+	return Pick(r, pool)
+}
+
 func (g *PG) boolExpr(d int) string {
 	r := g.r
 	if d <= 0 || r.Chance(0.25) {
 		if bv := g.vars("bool"); len(bv) > 0 && r.Bool() {
 			return Pick(r, bv)
+		}
+		if r.Intn(4) == 0 {
+			g.f("string-compare")
+			return g.strExpr(1) + Pick(r, []string{" < ", " > ", " == ", " != ", " <= ", " >= "}) + g.strExpr(1)
 		}
 		return g.intExpr(1) + Pick(r, []string{" < ", " > ", " == ", " != ", " <= ", " >= "}) + g.intExpr(1)
 	}
@@ -159,7 +178,7 @@ func (g *PG) boolExpr(d int) string {
 		g.f("func-call")
 		return "isOdd(" + g.intExpr(d-1) + ")"
 	}
-	return g.intExpr(d-1) + Pick(r, []string{" < ", " > ", " == ", " != "}) + g.intExpr(d-1)
+	return g.intExpr(d-1) + Pick(r, []string{" < ", " > ", " == ", " != ", " <= ", " >= "}) + g.intExpr(d-1)
 }
 
 func (g *PG) trace() {
@@ -170,6 +189,9 @@ func (g *PG) trace() {
 	}
 	for _, v := range g.vars("bool") {
 		args = append(args, v)
+	}
+	for _, v := range g.vars("string") {
+		args = append(args, "\"[\"+"+v+"+\"]\"")
 	}
 	if len(args) > 7 {
 		args = args[:7]
@@ -200,7 +222,12 @@ func (g *PG) stmt(depth int) {
 	}
 	switch {
 	case k < 10: // declaration
-		switch r.Intn(7) {
+		switch r.Intn(8) {
+		case 7:
+			n := g.fresh("w")
+			g.f("string-var")
+			g.w("%s := %s\n_ = %s\n", n, g.strExpr(2), n)
+			g.declare(n, "string")
 		case 0, 1, 2:
 			n := g.fresh("v")
 			if r.Bool() {
@@ -231,7 +258,14 @@ func (g *PG) stmt(depth int) {
 		}
 	case k < 30: // assignment forms
 		iv := g.vars("int")
-		switch c := r.Intn(9); {
+		switch c := r.Intn(10); {
+		case c == 9 && len(g.vars("string")) > 0:
+			g.f("string-assign")
+			if sv := Pick(r, g.vars("string")); r.Bool() {
+				g.w("%s = %s\n", sv, g.strExpr(2))
+			} else {
+				g.w("if len(%s) < 12 {\n%s += %s\n}\n", sv, sv, g.strExpr(1))
+			}
 		case c < 3 && len(iv) > 0:
 			g.w("%s = %s\n", Pick(r, iv), g.intExpr(2))
 		case c == 3 && len(iv) > 0:
